@@ -125,6 +125,17 @@ CORPUS = [
     {"max": 2, "min": 0, "qsize": 0, "gates": 0,
      "clients": [[("start",), ("enq", ("ret",)), ("enq", ("raise",)), ("stop",), ("start",), ("enq", ("ret",)), ("await", 2, True),
                   ("join", True), ("stop",)]]},
+    # a kept-alive worker that has run a task and then sees its idle time-out expire (the client idles): nothing runs again
+    {"max": 1, "min": 1, "qsize": 0, "gates": 0,
+     "clients": [[("start",), ("enq", ("ret",)), ("await", 0, True), ("idle",), ("idle",), ("enq", ("ret",)), ("await", 1, True),
+                  ("idle",), ("join", False), ("stop",)]]},
+    {"max": 2, "min": 2, "qsize": 0, "gates": 0,
+     "clients": [[("start",), ("enq", ("raise",)), ("enq", ("ret",)), ("join", False), ("idle",), ("idle",), ("idle",), ("join", False), ("stop",)]]},
+    # stop() while a worker is busy (its stop marker stays in the queue for clear()), restart, then two dependent tasks:
+    # the counters must come out of the cycle such that the second task still gets its worker
+    {"max": 2, "min": 1, "qsize": 0, "gates": 2,
+     "clients": [[("start",), ("enq", ("wait", 0)), ("stop",), ("start",), ("enq", ("wait", 1)), ("enq", ("open", 1)), ("join", False), ("stop",)],
+                 [("open", 0)]]},
 ]
 
 
@@ -205,6 +216,11 @@ class FairAtQuiescence(object):
             puts = [i for i, o in enumerate(options) if o.label.startswith("Queue.put")]
             if puts:
                 return self.rng.choice(puts)
+            # a client that just idles lets the workers' idle time-outs expire first (most of the time)
+            idle = [i for i, o in enumerate(options) if "idle" in o.label]
+            others = [i for i, o in enumerate(options) if i not in idle and not o.name.startswith("c")]
+            if idle and others and self.rng.random() < 0.85:
+                return self.rng.choice(others)
             cl = [i for i, o in enumerate(options) if o.name.startswith("c")]
             if cl and self.rng.random() < 0.7:
                 return self.rng.choice(cl)
@@ -344,6 +360,8 @@ def oracle_c09(case, o):
     for (i, th, ev) in o.events:
         if ev[0] == "result" and ev[3] in ("value", "raise") and ev[4] is not True:
             return ("C09:result-not-identical", "result() of task %d is not the object the task produced" % ev[2])
+        if ev[0] == "task-args":
+            return ("C09:task-arguments", "task %d was called with %s, enqueue() was given %s" % (ev[1], ev[2], ev[3]))
     # no task starts after stop() returned, until start() is called again
     stopped_since = None
     for (i, th, ev) in o.events:
